@@ -48,7 +48,8 @@ def parse_gt(s):
 
 
 class CallSet:
-    def __init__(self, samples, contigs, records, info_defs=None, fmt_defs=None, filters=None):
+    def __init__(self, samples, contigs, records, info_defs=None, fmt_defs=None, filters=None, version="4.3"):
+        self.version = version
         self.samples = list(samples)
         self.contigs = list(contigs)            # [(name, length)]
         self.records = list(records)
@@ -59,7 +60,7 @@ class CallSet:
 
     # ------------------------------------------------------------------ header
     def header_lines(self, bcf=False):
-        L = ["##fileformat=VCFv4.3"]
+        L = ["##fileformat=VCFv%s" % self.version]
         idx = 0
         dict_idx = {}
         for f in self.filters:
